@@ -117,10 +117,11 @@ Section Ros.
     mkStats (function_calls st + f) (jacobian_updates st + j) (number_of_steps st + n)
             (accepted st + a) (rejected st + r) (decompositions st + d) (solves st + so).
 
-  Fixpoint ros_loop (fuel : nat) (time_step h_max : T) (l : loop_state) (tr : list event) : result :=
-    match fuel with
-    | O => mkResult OutOfFuel (l_t l) (l_stats l) (l_s l) tr
-    | S fuel' =>
+  (* one trip around the loops: the top-of-step part when l_fresh, then one attempt.
+     inl = the Solve ends here with (status, final time, stats, state, events of this trip);
+     inr = the loops go on *)
+  Definition ros_iter (time_step h_max : T) (l : loop_state)
+    : (solver_state * T * stats * rstate * list event) + (loop_state * list event) :=
       (* ---- top of the outer loop ---- *)
       let top :=
         if l_fresh l then
@@ -138,7 +139,7 @@ Section Ros.
                  [EvStep (l_t l) H; EvForcing (sY s); EvNegJac (sY s)])
         else inr (l, []) in
       match top with
-      | inl st => mkResult st (l_t l) (l_stats l) (l_s l) tr
+      | inl st => inl (st, l_t l, l_stats l, l_s l, [])
       | inr (l1, ev0) =>
         (* ---- one attempt ---- *)
         let H := l_H l1 in
@@ -147,7 +148,8 @@ Section Ros.
         let last_alpha := if in_place then l_last_alpha l1 else alpha_full in   (* the total shift on the diagonal *)
         let s := l_s l1 in
         let jac1 := add_diag alpha (sJac s) in
-        let '(jac2, lu2) := if in_place then (factor_ip jac1, sLU s) else (jac1, factor_sep jac1 (sLU s)) in
+        let jac2 := if in_place then factor_ip jac1 else jac1 in
+        let lu2 := if in_place then sLU s else factor_sep jac1 (sLU s) in
         let s1 := mkRState (sY s) jac2 lu2 (sYnew s) (sInitF s) (sK s) (sYerr s) in
         let '(s2, evs, nf) := stages_loop H s1 in
         let d := sY s in
@@ -158,29 +160,36 @@ Section Ros.
         let fac := tmin (p_factor_max p) (tmax (p_factor_min p) (p_safety p /! pow_inv error (p_elo p))) in
         let Hnew := H *! fac in
         let st1 := bump (l_stats l1) nf 0 1 0 0 1 (p_stages p) in
-        let tr1 := tr ++ ev0 ++ [EvFactor H alpha jac1] ++ evs in
+        let tr1 := ev0 ++ [EvFactor H alpha jac1] ++ evs in
         if isnan error then
-          mkResult NaNDetected (l_t l1) st1 (swapY s3) (tr1 ++ [EvAttempt H error false (sY s3) ynew yerr])
+          inl (NaNDetected, l_t l1, st1, swapY s3, tr1 ++ [EvAttempt H error false (sY s3) ynew yerr])
         else if isinf error then
-          mkResult InfDetected (l_t l1) st1 (swapY s3) (tr1 ++ [EvAttempt H error false (sY s3) ynew yerr])
+          inl (InfDetected, l_t l1, st1, swapY s3, tr1 ++ [EvAttempt H error false (sY s3) ynew yerr])
         else if ltb error (n1 N) || ltb H (p_h_min p) then
           let Hn1 := tmax (p_h_min p) (tmin Hnew h_max) in
           let Hn2 := if l_reject_last l1 then tmin Hn1 H else Hn1 in
-          ros_loop fuel' time_step h_max
-                   (mkLoop (swapY s3) (l_t l1 +! H) Hn2 (bump st1 0 0 0 1 0 0 0) false false last_alpha true
-                           (S (l_attempt l1)))
-                   (tr1 ++ [EvAttempt H error true (sY s3) ynew yerr])
+          inr (mkLoop (swapY s3) (l_t l1 +! H) Hn2 (bump st1 0 0 0 1 0 0 0) false false last_alpha true
+                      (S (l_attempt l1)),
+               tr1 ++ [EvAttempt H error true (sY s3) ynew yerr])
         else
           let Hn := if l_reject_more l1 then H *! p_rej_dec p else Hnew in
           let st2 := if 1 <=? accepted st1 then bump st1 0 0 0 0 1 0 0 else st1 in
-          let '(s4, st3, ev4) :=
-            if in_place then
-              (mkRState (sY s3) (negjac (sY s3) (mzero (sJac s3))) (sLU s3) (sYnew s3) (sInitF s3) (sK s3) (sYerr s3),
-               bump st2 0 1 0 0 0 0 0, [EvNegJac (sY s3)])
-            else (s3, st2, []) in
-          ros_loop fuel' time_step h_max
-                   (mkLoop s4 (l_t l1) Hn st3 true (l_reject_last l1) last_alpha false (S (l_attempt l1)))
-                   (tr1 ++ [EvAttempt H error false (sY s3) ynew yerr] ++ ev4)
+          let s4 := if in_place
+                    then mkRState (sY s3) (negjac (sY s3) (mzero (sJac s3))) (sLU s3) (sYnew s3) (sInitF s3) (sK s3) (sYerr s3)
+                    else s3 in
+          let st3 := if in_place then bump st2 0 1 0 0 0 0 0 else st2 in
+          let ev4 := if in_place then [EvNegJac (sY s3)] else [] in
+          inr (mkLoop s4 (l_t l1) Hn st3 true (l_reject_last l1) last_alpha false (S (l_attempt l1)),
+               tr1 ++ [EvAttempt H error false (sY s3) ynew yerr] ++ ev4)
+      end.
+
+  Fixpoint ros_loop (fuel : nat) (time_step h_max : T) (l : loop_state) (tr : list event) : result :=
+    match fuel with
+    | O => mkResult OutOfFuel (l_t l) (l_stats l) (l_s l) tr
+    | S fuel' =>
+      match ros_iter time_step h_max l with
+      | inl (st, t, sts, s, ev) => mkResult st t sts s (tr ++ ev)
+      | inr (l', ev) => ros_loop fuel' time_step h_max l' (tr ++ ev)
       end
     end.
 
@@ -194,3 +203,17 @@ Section Ros.
     mkResult (match r_state r with Running => Converged | st => st end)
              (r_final_time r) (r_stats r) (r_s r) (r_trace r).
 End Ros.
+
+Arguments sY {V M F}. Arguments sJac {V M F}. Arguments sLU {V M F}. Arguments sYnew {V M F}.
+Arguments sInitF {V M F}. Arguments sK {V M F}. Arguments sYerr {V M F}.
+Arguments l_s {N V M F}. Arguments l_t {N V M F}. Arguments l_H {N V M F}. Arguments l_stats {N V M F}.
+Arguments l_reject_last {N V M F}. Arguments l_reject_more {N V M F}. Arguments l_last_alpha {N V M F}.
+Arguments l_fresh {N V M F}. Arguments l_attempt {N V M F}.
+Arguments r_state {N V M F}. Arguments r_final_time {N V M F}. Arguments r_stats {N V M F}.
+Arguments r_s {N V M F}. Arguments r_trace {N V M F}.
+Arguments EvForcing {N V M}. Arguments EvNegJac {N V M}. Arguments EvFactor {N V M}. Arguments EvSolve {N V M}.
+Arguments EvAttempt {N V M}. Arguments EvStep {N V M}.
+Arguments p_stages {N}. Arguments p_a {N}. Arguments p_c {N}. Arguments p_m {N}. Arguments p_e {N}.
+Arguments p_gamma0 {N}. Arguments p_newf {N}. Arguments p_elo {N}. Arguments p_max_steps {N}.
+Arguments p_round_off {N}. Arguments p_factor_min {N}. Arguments p_factor_max {N}. Arguments p_rej_dec {N}.
+Arguments p_safety {N}. Arguments p_h_min {N}. Arguments p_h_max {N}. Arguments p_h_start {N}.
